@@ -343,6 +343,9 @@ def run_case(spec):
                 elif "bare-dot-imports-of-two-levels" in rf and action == "froms_to_imports":
                     # `from . import mod` becomes `import pkg` + `pkg.mod...`: the submodule is no longer imported
                     label = "froms_to_imports-of-a-from-package-import-submodule"
+                elif "bare-dot-imports-of-two-levels" in rf and prefs["sort_imports_alphabetically"]:
+                    # `from . import a` / `from .. import b` are ordered differently by a second application
+                    label = "alphabetical-sorting-of-bare-dot-relative-imports"
                 elif "import-shadowed-by-assignment" in rf:
                     label = "import-shadowed-by-assignment"
                 elif "import-after-code" in rf:
